@@ -85,20 +85,22 @@ def replay_conv(inp):
         cu.write(os.path.join(d2, 'flux.fits'))
         # a two-sample filter spanning the whole grid
         nu = 299792458.0 / (w * 1e-6)
-        f = FM.Filter(name='filt', central_wavelength=float(np.mean(w)) * u.micron,
-                      nu=np.array([nu.min() * 0.9, nu.max() * 1.1]) * u.Hz, response=np.array([1.0, 2.0]))
+        nfilt = int(inp.get('nfilt', 1))
+        fs = [FM.Filter(name='filt%d' % q, central_wavelength=float(np.mean(w)) * u.micron,
+                        nu=np.array([nu.min() * 0.9, nu.max() * 1.1]) * u.Hz, response=np.array([1.0 + q, 2.0])) for q in range(nfilt)]
         try:
-            conv._convolve_model_dir_1(d1, [f])
-            conv._convolve_model_dir_2(d2, [f], memmap=False)
+            conv._convolve_model_dir_1(d1, fs)
+            conv._convolve_model_dir_2(d2, fs, memmap=False)
         except Exception as e:  # noqa: BLE001
             return True, {'raised': '%s: %s' % (type(e).__name__, e)}
-        c1, c2 = CF.read(os.path.join(d1, 'convolved', 'filt.fits')), CF.read(os.path.join(d2, 'convolved', 'filt.fits'))
-        # expected from the real rebinned response
         sed_nu = np.sort(nu)
         order = np.argsort(nu)
-        R_ = f.rebin(sed_nu * u.Hz).response
         bad = []
-        for fmt, cf, rows in (('per-file', c1, [names[i] for i in inp['par_order']]), ('cube', c2, names)):
+        for q, f in enumerate(fs):
+          c1, c2 = CF.read(os.path.join(d1, 'convolved', 'filt%d.fits' % q)), CF.read(os.path.join(d2, 'convolved', 'filt%d.fits' % q))
+          # expected from the real rebinned response
+          R_ = f.rebin(sed_nu * u.Hz).response
+          for fmt, cf, rows in (('per-file', c1, [names[i] for i in inp['par_order']]), ('cube', c2, names)):
             if [str(x).strip() for x in cf.model_names] != rows:
                 bad.append((fmt, 'row order', [str(x).strip() for x in cf.model_names]))
                 continue
@@ -107,9 +109,9 @@ def replay_conv(inp):
                 wantf = np.sum(val[i][:, order] * R_, axis=1)
                 wante = np.sqrt(np.sum((unc[i][:, order] * R_) ** 2, axis=1))
                 if not np.allclose(cf.flux[r].value, wantf, rtol=1e-5, atol=1e-12):
-                    bad.append((fmt, 'flux', n, cf.flux[r].value.tolist(), wantf.tolist()))
+                    bad.append((fmt, 'filt%d' % q, 'flux', n, cf.flux[r].value.tolist(), wantf.tolist()))
                 if not np.allclose(cf.error[r].value, wante, rtol=1e-5, atol=1e-12):
-                    bad.append((fmt, 'error', n, cf.error[r].value.tolist(), wante.tolist()))
+                    bad.append((fmt, 'filt%d' % q, 'error', n, cf.error[r].value.tolist(), wante.tolist()))
         return bool(bad), {'mismatch': bad[:3]}
     finally:
         shutil.rmtree(d, ignore_errors=True)
@@ -181,7 +183,7 @@ def h_conv(nm, n_ap, n_wav, wav_desc, par_order, nfilt=1, listing='sorted'):
                 grid = v['grid']
 
                 def inputs(m):
-                    return {'names': names, 'par_order': list(par_order), 'w': mval(m, grid['w']), 'ap': mval(m, grid['ap']),
+                    return {'names': names, 'par_order': list(par_order), 'w': mval(m, grid['w']), 'ap': mval(m, grid['ap']), 'nfilt': nfilt,
                             'flux': {n: mval(m, grid['flux'][n]) for n in names}, 'err': {n: mval(m, grid['err'][n]) for n in names}}
                 if out[0] == 'exc':
                     cl.crash(c, out[1], 'convolve_model_dir', inputs, replay_conv)
@@ -269,7 +271,9 @@ def configs(tier, seed):
         cfgs.append(Config('convolve nm=2 n_ap=2 n_wav=3 %s par_order=(1,0)' % tag, h_conv(2, 2, 3, wav_desc, (1, 0)), 3000))
         cfgs.append(Config('convolve nm=3 n_ap=1 n_wav=2 %s par_order=(2,0,1) listing reversed' % tag,
                            h_conv(3, 1, 2, wav_desc, (2, 0, 1), listing='reversed'), 3000))
-    cfgs.append(Config('convolve nm=2 n_ap=1 n_wav=2 desc two filters', h_conv(2, 1, 2, True, (0, 1), nfilt=2), 3000))
+    cfgs.append(Config('convolve nm=2 n_ap=1 n_wav=2 desc two filters par_order=(0,1)', h_conv(2, 1, 2, True, (0, 1), nfilt=2), 3000))
+    cfgs.append(Config('convolve nm=2 n_ap=1 n_wav=2 desc two filters par_order=(1,0)', h_conv(2, 1, 2, True, (1, 0), nfilt=2), 3000))
+    cfgs.append(Config('convolve nm=3 n_ap=1 n_wav=2 asc three filters par_order=(1,2,0)', h_conv(3, 1, 2, False, (1, 2, 0), nfilt=3), 3000))
     cfgs.append(Config('cube/parameter-table mismatch refused', h_mismatch, 600))
     if not q:
         for po in itertools.permutations(range(3)):
